@@ -516,7 +516,13 @@ void readSettings(int sel, const std::string& text, bool asString, bool gz)
    if(sp.numRows() != 3 || sp.numCols() != 3 || sp.numNonzeros() != 7) vfz::fail("settings reader changed the LP dimensions");
    checkObject(sp, false, "after settings read");
    limits(sp);   // keep the solve under the loaded settings short and silent
-   tryOptimize(sp, k.c_str());
+   // known finding settings-huge-epsilon-lu-overflow: zero tolerances of the LU many orders of magnitude above their defaults
+   // (accepted: the parameter ranges allow values up to 1) make CLUFactor drop structural entries; forestUpdate then walks
+   // backwards past the start of a column while looking for the pivot row (heap-buffer-overflow)
+   bool hugeEps = sp.realParam(SoPlex::EPSILON_ZERO) > 1e-6 || sp.realParam(SoPlex::EPSILON_FACTORIZATION) > 1e-6
+                  || sp.realParam(SoPlex::EPSILON_UPDATE) > 1e-6 || sp.realParam(SoPlex::EPSILON_PIVOT) > 1e-3;
+   if(hugeEps && vfz::known("settings-huge-epsilon-lu-overflow")) vfz::count("excluded_known.settings-huge-epsilon-lu-overflow");
+   else tryOptimize(sp, k.c_str());
    sp.resetSettings();
    limits(sp);
    finalSolve(sp, k.c_str());
